@@ -61,10 +61,13 @@ type c14Case struct {
 	// LongRun > len(Msgs): the payload list is repeated cyclically up to this many messages at run time (a connection
 	// that carries more than 2^16 messages without megabytes of case)
 	LongRun int `json:"long_run,omitempty"`
+	// Quiet: message index -> milliseconds the feeder has nothing to hand over before that message (no fault of the
+	// sink is involved: the no-fault oracle applies however long the producer sat idle)
+	Quiet map[int]int `json:"quiet,omitempty"`
 }
 
 const c14Rule = "case = raw-socket producer configuration (tcp | udp, retry-max 0..4) + 1..300 messages (1 octet..48 KiB, in a quarter of the tcp cases some extended to exactly 255..131073 octets on and next to the 8-, 12-, 16- and 17-bit marks; JSON-like text rich in %d %s %% %! verbs, quotes, UTF-8 and arbitrary non-newline octets, each tagged with its index; in a quarter of the cases handed over as adjacent sub-slices of one buffer instead of private copies: the producer must not touch memory beyond the message, and the buffer must be unchanged afterwards) " +
-	"+ fault plan (tcp): none, or 1..3 breaks (after message i the sink closes gracefully | resets the connection, optionally stops listening for a drawn downtime; with two or more breaks the feeder is paced so that later breaks still find traffic), or a long-run plan (65 600..72 000 short messages on one connection, in half of the cases with a sink that stops reading for 0.3 / 1.2 s 40..400 messages before the 2^16 mark and then goes on: the no-fault oracle applies), or a flap plan (8..40 closes / resets with the listener up while 1500..4000 messages flow back to back), or an outage plan (2..4 outages on one producer, each costing a drawn 2..140 messages of a paced feeder, delivered traffic in between), or a stall plan (the sink stops reading while 30..60 messages of 48 KiB follow, so that a write blocks half-way, then resets), or a slow-sink plan (the sink stops reading for 0.3..5.5 s (thorough: ..31 s) and then goes on, while 1200..2500 messages keep the producer's queue full: the no-fault oracle applies); with a fault plan the producer may have been up and idle for 0.4..5.5 s (thorough: ..31 s) before traffic starts; the real producer.NewProducer(\"rawSocket\").Run() writes to a sink owned by the harness; " +
+	"+ fault plan (tcp): none, or 1..3 breaks (after message i the sink closes gracefully | resets the connection, optionally stops listening for a drawn downtime; with two or more breaks the feeder is paced so that later breaks still find traffic), or a quiet plan (6..40 messages with one to three spells of 0.6..3.3 s in which the feeder has nothing to hand over while the sink is up: the no-fault oracle applies), or a long-run plan (65 600..72 000 short messages on one connection, in half of the cases with a sink that stops reading for 0.3 / 1.2 s 40..400 messages before the 2^16 mark and then goes on: the no-fault oracle applies), or a flap plan (8..40 closes / resets with the listener up while 1500..4000 messages flow back to back), or an outage plan (2..4 outages on one producer, each costing a drawn 2..140 messages of a paced feeder, delivered traffic in between), or a stall plan (the sink stops reading while 30..60 messages of 48 KiB follow, so that a write blocks half-way, then resets), or a slow-sink plan (the sink stops reading for 0.3..5.5 s (thorough: ..31 s) and then goes on, while 1200..2500 messages keep the producer's queue full: the no-fault oracle applies); with a fault plan the producer may have been up and idle for 0.4..5.5 s (thorough: ..31 s) before traffic starts; the real producer.NewProducer(\"rawSocket\").Run() writes to a sink owned by the harness; " +
 	"oracle without fault = the sink's byte stream is exactly concat(message + newline) (udp: one datagram per message, paced; in a third of the udp cases the sink's socket is closed for 5..150 ms and bound again to the same port: delivery must resume within retry-max+4 messages handed over one at a time, every datagram that arrives is exactly its message); with faults (every break index is a fault point) = the complete lines received over all connections are " +
 	"byte-identical input messages with strictly increasing indices (no duplicate, no corruption, no reordering), and once the sink is reachable again probe messages handed over one at a time resume delivery within retry-max+4 probes with nothing missing afterwards; " +
 	"non-trivial = a message contains '%' or is >= 4 KiB, or the plan has a break; distinct by hash"
@@ -171,6 +174,25 @@ func genC14Plan(t *rapid.T) c14Case {
 			for len(c.Msgs) < 2500 {
 				c.Msgs = append(c.Msgs, []byte("slow-sink-filler-0123456789"))
 			}
+		}
+		return c
+	}
+	if c.Protocol == "tcp" && rapid.IntRange(0, 11).Draw(t, "quietplan") == 0 {
+		// quiet spells: the sink is up and reading all the time, the feeder simply has nothing to hand over for
+		// 0.6..3.3 s once to three times (5 s at most): every message still arrives exactly once and in order
+		c.Msgs = nil
+		for i, n := 0, rapid.IntRange(6, 40).Draw(t, "nquietmsgs"); i < n; i++ {
+			c.Msgs = append(c.Msgs, []byte(rapid.SampledFrom(c14Snippets).Draw(t, "quietsnip")+"quiet"))
+		}
+		c.Quiet = map[int]int{}
+		total := 0
+		for k, ns := 0, rapid.IntRange(1, 3).Draw(t, "nquiets"); k < ns; k++ {
+			ms := rapid.SampledFrom([]int{600, 1100, 2200, 2600, 3300}).Draw(t, "quietms")
+			if total+ms > 5000 {
+				continue
+			}
+			total += ms
+			c.Quiet[rapid.IntRange(0, len(c.Msgs)-1).Draw(t, "quietat")] += ms
 		}
 		return c
 	}
@@ -506,7 +528,7 @@ func runC14(c *c14Case) (v verdict, sig string, err error) {
 		v.label(b.DownMS > 0, "sink-downtime")
 	}
 	v.label(c.RetryMax == 0, "retry-max-0")
-	v.NT = hasPct || big || len(c.Breaks) > 0
+	v.NT = hasPct || big || len(c.Breaks) > 0 || len(c.Quiet) > 0
 
 	if c.Protocol == "udp" {
 		return runC14UDP(c, v)
@@ -623,6 +645,11 @@ func runC14(c *c14Case) (v verdict, sig string, err error) {
 		return nil
 	}
 	for i, m := range wireMsgs {
+		if ms := c.Quiet[i]; ms > 0 && ms <= 10000 {
+			time.Sleep(time.Duration(ms) * time.Millisecond)
+			v.label(true, "producer-idle-between-messages")
+			v.label(ms >= 2000, "producer-idle>=2s")
+		}
 		if c.Arena {
 			ch <- handed[i]
 		} else {
